@@ -12,5 +12,8 @@ for d in engine/checks/*/; do
   else
     ( cd engine && $G test -c -vet=off -tags verif -o /dev/null ./checks/$pkg/ ) || rc=1
   fi
+  if [ -f "$d/race_pkg" ]; then
+    ( cd engine && $G test -race -c -vet=off -tags verif -o /dev/null ./checks/$(cat "$d/race_pkg")/ ) || rc=1
+  fi
 done
 exit $rc
